@@ -94,6 +94,7 @@ static std::unique_ptr<Obs> build(const Setup& s, const std::vector<long>& hist,
     if (!refused) return nullptr;
     o->perturb = 0;
     o->Set_CoherentRhoTerms(false);
+    o->Set_h_min(1e6); o->Set_h_max(1e7); o->Set_h(2e6); o->Set_rel_error(0.5); o->Set_abs_error(0.5); o->Set_NumSteps(1);   // integrator settings do not enter any query
     o->RestoreClock(ti);
     for (int ix = 0; ix < s.nx; ix++)
       for (int ir = 0; ir < 2; ir++) o->SetRho(ix, ir, comps_from_matrix(s.rho[ix][ir]));
